@@ -1,8 +1,12 @@
 """C27 Link control PDUs get the specified responses."""
 import os, sys
 sys.path.insert(0, os.path.dirname(__file__))
-import llc
-UNITS = [llc.unit('C27_CLAUSES', enforce=['handle_ll_control_data'])]
+import llc, lle
+REPLAY = dict(src='replay/c27_replay.cpp', cxxflags=['-DNDEBUG', '-I/repo/tests/test_tools', '-I/repo/tests/link_layer'],
+              repo_sources=['tests/test_tools/test_radio.cpp', 'tests/test_tools/test_servers.cpp', 'tests/test_tools/hexdump.cpp', 'tests/test_tools/buffer_io.cpp', 'tests/test_tools/address_io.cpp',
+                            'bluetoe/link_layer/delta_time.cpp', 'bluetoe/link_layer/channel_map.cpp', 'bluetoe/link_layer/connection_details.cpp', 'bluetoe/utility/address.cpp'])
+UNITS = [llc.unit('C27_CLAUSES', enforce=['handle_ll_control_data'], replay=REPLAY),
+         lle.unit(['ll_timeout', 'll_end_event', 'transmit_pending_control_pdus', 'valid_phy_encoding', 'handle_phy_request'], replay=REPLAY)]
 META = dict(
     level='other',
     explanation="link_layer<>::handle_ll_control_data (link_layer.hpp, real body, every header, length, opcode and content, every feature set and state flag): LL_PING_REQ(1) -> "
@@ -11,10 +15,19 @@ META = dict(
                 "once one was received no further LL_VERSION_IND is ever sent; LL_UNKNOWN_RSP (any length), LL_REJECT_IND(2), LL_REJECT_EXT_IND(3) are never answered and are "
                 "reported with their error / opcode, and if they refer to the own connection parameter request the procedure time out is cleared; LL_TERMINATE_IND(2) ends the "
                 "link with its reason, unanswered; LL_CONNECTION_PARAM_REQ(24), the encryption PDUs (C28) and the PHY PDUs are handed to their handlers, which decide about the "
-                "answer; every other control PDU - unknown opcode or known opcode with another length - is answered with LL_UNKNOWN_RSP naming the opcode; a data PDU is not touched.",
-    assumptions=["NOT decided: 'a peripheral-initiated procedure without an answer ends the connection after the 40 s response timeout' - procedure_timeout_ is armed in "
-                 "connection_parameter_update_request / the PHY request and counted down in end_event, none of which is extracted; only its clearing by a reject is",
-                 "handle_connection_parameters_request, handle_encryption_pdus (C28) and handle_phy_request are abstract; what they accept is assumed to be their own opcodes",
+                "answer; every other control PDU - unknown opcode or known opcode with another length - is answered with LL_UNKNOWN_RSP naming the opcode; a data PDU is not touched. "
+                "Response time out (unit events, real bodies of transmit_pending_control_pdus, end_event, timeout, phy_update_request_impl::handle_phy_request): every request "
+                "the peripheral sends (LL_CONNECTION_PARAM_REQ, LL_PHY_REQ, LL_VERSION_IND - one per call, in this order) arms procedure_timeout_ with 40 s; end_event counts "
+                "it down by the time since the last event; once it has run out, end_event / timeout end the connection with reason 0x22 (LL response timeout) instead of "
+                "planning the next event; it is ended only by the answer to the procedure it belongs to (LL_VERSION_IND after the own one, LL_PHY_UPDATE_IND after the own "
+                "LL_PHY_REQ, LL_UNKNOWN_RSP / reject naming the request, LL_CONNECTION_UPDATE_IND applied at its instant) - a version exchange or PHY update started by the "
+                "central leaves it running. LL_PHY_REQ(3) -> LL_PHY_RSP( 1M | 2M, 1M | 2M ); LL_PHY_UPDATE_IND(5) with defined PHYs is never answered; other PHY PDUs are "
+                "left to the caller (LL_UNKNOWN_RSP).",
+    assumptions=["one time out is shared by all procedures: two requests queued before either is sent (connection parameter request and version request) share it, the first answer "
+                 "ends it for both - the per function contracts do not decide that history; LL_REJECT_IND (which names no request) ends it whatever is running",
+                 "handle_connection_parameters_request and handle_encryption_pdus (C28) are abstract in handle_ll_control_data; handle_phy_request is replaced there by a stand-in "
+                 "that follows its contract proved in unit events (it ends the time out only for LL_PHY_UPDATE_IND while the own PHY request is running)",
+                 "time_since_last_event(), the planning of events, handle_received_data and the radio are abstract in end_event / timeout; the order of the calls is recorded",
                  "response opcodes a central has no reason to send (LL_FEATURE_RSP, LL_PING_RSP, LL_PHY_RSP, ...) are 'unknown' to a peripheral and get LL_UNKNOWN_RSP - the clause "
                  "'responses are never answered' is claimed for LL_UNKNOWN_RSP and the two rejects only"],
     trusted_base=["transmit buffer (commit_ll_transmit_buffer), fill< layout >"],
